@@ -65,7 +65,13 @@ func DrawReadSched(t *Tape, L int, faults bool) *ReadSched {
 		if s.ZeroReads == nil {
 			s.ZeroReads = map[int]int{}
 		}
-		s.ZeroReads[t.Draw(L+1)] = 1 + t.Small(3)
+		// mostly 1..3 in a row; sometimes a long idle run (still below the 100 after which bufio,
+		// and mxj's own adaptors, give up with io.ErrNoProgress)
+		cnt := 1 + t.Small(3)
+		if t.Draw(6) == 5 {
+			cnt = []int{9, 10, 11, 30, 64, 99}[t.Draw(6)]
+		}
+		s.ZeroReads[t.Draw(L+1)] = cnt
 	}
 	if t.Draw(8) == 7 {
 		s.ZeroEvery = 1 + t.Small(3)
@@ -90,6 +96,7 @@ type SimReader struct {
 	s       *ReadSched
 	zleft   map[int]int
 	zeDone  map[int]bool
+	zrun    int // empty reads delivered in a row
 	reads   int
 	eofSent bool
 	errSent bool
@@ -132,19 +139,24 @@ func (r *SimReader) Read(p []byte) (n int, err error) {
 		r.errSent = true
 		return 0, errSim
 	}
-	if z := r.zleft[r.pos]; z > 0 && !r.eofSent {
+	// never 100 empty reads in a row: that is where bufio - and mxj's adaptors - legitimately
+	// give up with io.ErrNoProgress
+	if z := r.zleft[r.pos]; z > 0 && !r.eofSent && r.zrun < 98 {
 		r.zleft[r.pos] = z - 1
 		r.ZeroDelivered++
+		r.zrun++
 		return 0, nil
 	}
-	if k := r.s.ZeroEvery; k > 0 && r.pos%k == 0 && !r.eofSent && !r.zeDone[r.pos] {
+	if k := r.s.ZeroEvery; k > 0 && r.pos%k == 0 && !r.eofSent && !r.zeDone[r.pos] && r.zrun < 98 {
 		if r.zeDone == nil {
 			r.zeDone = map[int]bool{}
 		}
 		r.zeDone[r.pos] = true
 		r.ZeroDelivered++
+		r.zrun++
 		return 0, nil
 	}
+	r.zrun = 0
 	if r.pos >= r.end {
 		if r.s.CutAt >= 0 && r.s.CutAt < len(r.data) {
 			r.CutDelivered = true
@@ -273,9 +285,119 @@ type SimDisk struct {
 	Opens       int
 	Closes      int
 	WriteCalls  int
+	// real-file mode (the edited tree names *os.File explicitly): files live under realDir
+	// while mxj handles them; dirty names are read back on the next Get
+	realDir string
+	dirty   map[string]bool
+}
+
+var diskRealMode = os.Getenv("VERIF_DISKMODE") == "real"
+var diskRealRoot string
+
+// Real reports whether the disk hands real *os.File values to mxj.  In that mode read
+// delivery schedules, EIO and reported write errors cannot be injected.
+func (d *SimDisk) Real() bool { return d.realDir != "" }
+
+func (d *SimDisk) realPathOf(name string) string {
+	return fmt.Sprintf("%s/%016x", d.realDir, uint64(HashStr(name)))
+}
+
+// Get returns the current content of a file (nil, false if it does not exist).
+func (d *SimDisk) Get(name string) ([]byte, bool) {
+	if d.Real() && d.dirty[name] {
+		delete(d.dirty, name)
+		b, err := os.ReadFile(d.realPathOf(name))
+		if err != nil {
+			delete(d.Files, name)
+		} else {
+			if d.TearAt >= 0 && len(b) > d.TearAt {
+				// crash during the write: only the prefix became durable
+				b = b[:d.TearAt]
+				d.c.C["fault.torn_write"]++
+			}
+			d.Files[name] = b
+		}
+	}
+	b, ok := d.Files[name]
+	return b, ok
+}
+
+func (d *SimDisk) Set(name string, b []byte) {
+	delete(d.dirty, name)
+	d.Files[name] = b
+}
+
+func (d *SimDisk) Del(name string) {
+	delete(d.dirty, name)
+	delete(d.Files, name)
+	if d.Real() {
+		os.Remove(d.realPathOf(name))
+	}
+}
+
+// RealPath is the hook behind verifsim.OpenReal / CreateReal / ... .
+func (d *SimDisk) RealPath(op, name string) (string, error) {
+	d.c.Event("disk.%s(%s) [real file]", op, name)
+	d.c.C["disk_events"]++
+	p := d.realPathOf(name)
+	switch op {
+	case "open":
+		if e := d.OpenErr[name]; e != nil {
+			d.c.C["fault.open_error"]++
+			return "", e
+		}
+		b, ok := d.Get(name)
+		if !ok {
+			os.Remove(p)
+			return p, nil // os.Open will report that it does not exist
+		}
+		if d.NonRegular[name] {
+			return d.realDir, nil
+		}
+		d.Opens++
+		d.c.C["probe.real_disk_mode_reads"]++
+		if err := os.WriteFile(p, b, 0o644); err != nil {
+			return "", err
+		}
+	case "create":
+		if e := d.CreateErr[name]; e != nil {
+			d.c.C["fault.create_error"]++
+			return "", e
+		}
+		if b, ok := d.Get(name); ok {
+			os.WriteFile(p, b, 0o644) // what is there before the writer opens it
+		} else {
+			os.Remove(p)
+		}
+		d.Opens++
+		d.dirty[name] = true
+		d.Files[name] = nil
+	case "remove":
+		if _, ok := d.Get(name); !ok {
+			return "", &fs.PathError{Op: "remove", Path: name, Err: os.ErrNotExist}
+		}
+		d.Del(name)
+	}
+	return p, nil
 }
 
 func NewSimDisk(c *Ctx) *SimDisk {
+	d := newSimDisk(c)
+	if diskRealMode {
+		if diskRealRoot == "" {
+			root := os.Getenv("VERIF_SCRATCH")
+			if root == "" {
+				root = os.TempDir()
+			}
+			diskRealRoot, _ = os.MkdirTemp(root, "simdisk-")
+		}
+		d.realDir = diskRealRoot
+		d.dirty = map[string]bool{}
+	}
+	return d
+}
+
+func newSimDisk(c *Ctx) *SimDisk {
 	return &SimDisk{c: c, Files: map[string][]byte{}, NonRegular: map[string]bool{}, StatErr: map[string]error{}, OpenErr: map[string]error{},
 		CreateErr: map[string]error{}, ReadSched: map[string]*ReadSched{}, TearAt: -1, Readers: map[string]*SimReader{}}
 }
@@ -300,7 +422,7 @@ func (d *SimDisk) Stat(name string) (fs.FileInfo, error) {
 		d.c.C["fault.stat_error"]++
 		return nil, e
 	}
-	b, ok := d.Files[name]
+	b, ok := d.Get(name)
 	if !ok {
 		return nil, &fs.PathError{Op: "stat", Path: name, Err: os.ErrNotExist}
 	}
@@ -422,11 +544,11 @@ func (d *SimDisk) Remove(name string) error {
 
 func (d *SimDisk) Rename(o, n string) error {
 	d.c.Event("disk.Rename(%s,%s)", o, n)
-	b, ok := d.Files[o]
+	b, ok := d.Get(o)
 	if !ok {
 		return &fs.PathError{Op: "rename", Path: o, Err: os.ErrNotExist}
 	}
-	d.Files[n] = b
-	delete(d.Files, o)
+	d.Set(n, b)
+	d.Del(o)
 	return nil
 }
